@@ -46,7 +46,9 @@ type Spelling struct {
 	// Lower[i] its hex case; Partial[i] whether nested levels encode the hex digits too
 	Enc     []int  `json:"enc,omitempty"`
 	Lower   []bool `json:"lower,omitempty"`
-	Partial []bool `json:"partial,omitempty"`
+	// Partial[i]: what the nested levels re-encode: 0 only '%', 1 every character, 2 only the hex
+	// digits (leaving a literal '%' that later levels complete), 3 only the last hex digit
+	Partial []int `json:"partial,omitempty"`
 	// Dots: inserted dot segments: before path segment (Pos mod (len+1)), Kind 0 "." 1 "x/..", spelled
 	// with Style 0 literal, 1 "%2e", 2 "%2E", 3 nested "%252e"
 	Dots []DotIns `json:"dots,omitempty"`
@@ -124,19 +126,35 @@ func hexByte(b byte, lower bool) string {
 }
 
 // encodeChar writes one unreserved character at the given nesting depth.
-func encodeChar(ch byte, depth int, lower, partial bool) string {
+func encodeChar(ch byte, depth int, lower bool, partial int) string {
 	s := string(ch)
 	for d := 0; d < depth; d++ {
 		var sb strings.Builder
 		for i := 0; i < len(s); i++ {
 			c := s[i]
-			if d == 0 || c == '%' || partial {
+			enc := false
+			switch {
+			case d == 0:
+				enc = true
+			case partial == 1:
+				enc = true
+			case partial == 2:
+				enc = c != '%'
+			case partial == 3:
+				enc = i == len(s)-1
+			default:
+				enc = c == '%'
+			}
+			if enc {
 				sb.WriteString(hexByte(c, lower))
 			} else {
 				sb.WriteByte(c)
 			}
 		}
 		s = sb.String()
+		if len(s) > 120 {
+			break
+		}
 	}
 	return s
 }
@@ -146,7 +164,7 @@ func (st *spellState) text(s string, maxDepth int) string {
 	var sb strings.Builder
 	for i := 0; i < len(s); i++ {
 		depth := 0
-		lower, partial := false, false
+		lower, partial := false, 0
 		if len(sp.Enc) > 0 {
 			depth = sp.Enc[st.idx%len(sp.Enc)]
 		}
@@ -402,9 +420,15 @@ func GenSpelling(t *rapid.T, label string, rich bool) Spelling {
 			sp.Enc = append(sp.Enc, d)
 		}
 		sp.Lower = bools(".lower", 5)
-		sp.Partial = make([]bool, 4)
+		sp.Partial = make([]int, 4)
 		for i := range sp.Partial {
-			sp.Partial[i] = rapid.IntRange(0, 5).Draw(t, label+".partial") == 0
+			if rapid.IntRange(0, 3).Draw(t, label+".partial?") == 0 {
+				sp.Partial[i] = rapid.IntRange(1, 3).Draw(t, label+".partial")
+			}
+		}
+		// now and then one very deep nesting (the statement puts no bound on it)
+		if rapid.IntRange(0, 7).Draw(t, label+".deep") == 0 {
+			sp.Enc[rapid.IntRange(0, len(sp.Enc)-1).Draw(t, label+".deepat")] = rapid.IntRange(4, 16).Draw(t, label+".deepdepth")
 		}
 	}
 	nd := rapid.IntRange(0, 2).Draw(t, label+".ndots")
